@@ -1,6 +1,7 @@
 package props
 
 import (
+	"encoding/json"
 	"fmt"
 	"math/rand"
 	"reflect"
@@ -305,6 +306,32 @@ func c13PointerUnknown(c *mon.Ctx, r *rand.Rand) {
 	c.Count("pointer_unknown_value_histories")
 }
 
+// c13KindHistories: one evaluator meets the same selector as a float, then
+// as an int / uint / string (and in other orders), with literals that only
+// some kinds can read ("0x10", "0b11", "1e2", "010", "+5").
+func c13KindHistories(c *mon.Ctx, r *rand.Rand) {
+	vals := []interface{}{1.5, float32(16), 16, uint(16), int8(16), "0x10", json.Number("16"), true, nil, []interface{}{16, 1.5, "0x10"}, uint64(3), int64(100), 8}
+	exprs := []string{`x == "0x10"`, `x != "0b11"`, `"0x10" in l`, `x == "1e2"`, `x == "010"`, `x == "+5" or x == "0x10"`, `x == 0x10`, `l contains "0o20"`, `any l as v { v == "0x10" }`}
+	text := exprs[r.Intn(len(exprs))]
+	used, err, pan, _ := createEval(text)
+	if pan != "" || err != nil {
+		return
+	}
+	for step := 0; step < 10; step++ {
+		v := vals[r.Intn(len(vals))]
+		d := map[string]interface{}{"x": v, "l": []interface{}{v, vals[r.Intn(len(vals))]}}
+		fresh, _, _, _ := createEval(text)
+		ou, of := evaluate(used, d), evaluate(fresh, d)
+		c.Evals(2)
+		if ou.Class() != of.Class() {
+			c.Violation(fmt.Sprintf("C13 history-dependent kind-history used=%s fresh=%s", ou.Class(), of.Class()), "after meeting the same selector with values of other kinds, a used evaluator reads a literal differently from a fresh one",
+				map[string]any{"expression": text, "step": step, "value": fmt.Sprintf("%T %v", v, v), "used_evaluator": ou.String(), "fresh_evaluator": of.String()})
+			return
+		}
+	}
+	c.Count("kind_histories")
+}
+
 // c13ManySubjects: one evaluator sees hundreds of DISTINCT data (more than any
 // small cache holds: 64, 128, 256, 1024), then the earlier ones again in
 // another order; every answer must be the one a fresh evaluator gives.
@@ -425,6 +452,9 @@ func c13Run(c *mon.Ctx, idx int) {
 	}
 	if idx%25 == 3 {
 		c13PointerUnknown(c, r)
+	}
+	if idx%25 == 4 {
+		c13KindHistories(c, r)
 	}
 	if idx%800 == 5 {
 		c13ManyExpressions(c)
@@ -1003,7 +1033,7 @@ func init() {
 		NumCases:    func(tier string) int { return tierN(tier, 4000, 150000) },
 		Run:         c13Run,
 		Required: func(tier string) []string {
-			return []string{"histories", "in_place_update_histories", "in_place_update_histories_with_hook", "pointer_unknown_value_histories", "many_expression_runs", "long_runs", "many_subject_runs", "same_root_type_histories", "evaluate_calls", "execute_calls", "execute_results_written_into", "calls_after_an_error_follow", "call_outcome:T", "call_outcome:F", "call_outcome:E", "history_len:0", "history_len:2", "history_len:3"}
+			return []string{"histories", "in_place_update_histories", "in_place_update_histories_with_hook", "pointer_unknown_value_histories", "kind_histories", "many_expression_runs", "long_runs", "many_subject_runs", "same_root_type_histories", "evaluate_calls", "execute_calls", "execute_results_written_into", "calls_after_an_error_follow", "call_outcome:T", "call_outcome:F", "call_outcome:E", "history_len:0", "history_len:2", "history_len:3"}
 		},
 	})
 	mon.Register(&mon.Prop{
